@@ -3,6 +3,6 @@
 sha=$(git -C /repo rev-parse --short "$1")
 wt=/tmp/suite-$sha
 git -C /repo worktree add --detach "$wt" "$sha" -q || exit 2
-cd "$wt" && PYTHONPATH="$wt" /venv/bin/python -m pytest -q -p no:cacheprovider -n 6 --timeout=900 glotaran benchmark > /tmp/suite-$sha.log 2>&1
+cd "$wt" && PYTHONPATH="$wt" NUMBA_NUM_THREADS=2 OMP_NUM_THREADS=2 /venv/bin/python -m pytest -q -p no:cacheprovider -n 6 --timeout=900 glotaran benchmark > /tmp/suite-$sha.log 2>&1
 tail -3 /tmp/suite-$sha.log | tr '\n' ' ' > /tmp/suite-$sha.result
 cd / && git -C /repo worktree remove --force "$wt"
